@@ -178,7 +178,13 @@ fn check(data_in: &[u8], mode: &'static str, note: &str, big_pad: bool, names: &
     let pos0 = stream::gen_initial_pos(&mut c, data.len());
     // a fifth of the cases: one transient hard I/O error somewhere; laziness and the allocation bound hold regardless
     let faults = if c.u8() >= 205 { vec![io::Fault { at: 4 + c.below(60), kind: io::FaultKind::Error, permanent: false, ekind: c.below(8) as u8 }] } else { vec![] };
-    let reader = Reader::with(data.clone(), chunks.clone(), intr, faults).at_position(pos0);
+    let mut reader = Reader::with(data.clone(), chunks.clone(), intr, faults).at_position(pos0);
+    // one case in 16: a stream that cannot seek relative to its end, so that its length cannot be asked for
+    let b = c.u8();
+    if b >= 240 {
+        reader = reader.without_seek_end(b & 7);
+        obs.label("stream_without_seek_end");
+    }
     alloc::open();
     let rs = guard(|| open_stream_as(AnyEndian::Little, reader.clone()));
     let a = alloc::close();
